@@ -277,6 +277,9 @@ let () =
        | "flatten", [t] when hh t >= 0 -> setr (flatten sh.so !(sh.sa) (n t))
        | "opt", [t] when hh t >= 0 -> setr (optimized sh.so !(sh.sa) (n t))
        | "copy", [t] -> push (hh t)
+       (* an oracle denotes the expression it wraps: for the purpose of the shadows (numerical fragility of folded constants
+          and values) it IS that expression *)
+       | ("oracle" | "soracle"), [t] when hh t >= 0 -> push (hh t)
        | ("std" | "cstd"), k :: hs when List.for_all (fun q -> hh q >= 0) hs ->
            (match std_dispatch sh.so (nat_of_int (int_of_string k)) (List.map (fun q -> SH (n q)) hs) with
             | Some e -> setr (build sh.so e !(sh.sa))
@@ -457,7 +460,7 @@ let () =
                   with _ -> false) in
                 let noise = if nan_in f32_poszero || nan_in f32_negzero || nan_in (f32_noisy 1) || nan_in (f32_noisy 2) then infinity else noise in
                 (* ... and under the shadow builds (doubles, noisy binary32), which also re-fold the constants *)
-                let noise = if Hashtbl.length oracle_tbl <> 0 then noise else
+                let noise =
                   List.fold_left (fun acc sh ->
                     let hi = int_of_string t in
                     if not sh.sok || hi >= Array.length !(sh.shh) || !(sh.shh).(hi) < 0 then acc else
